@@ -93,6 +93,15 @@ class SymReModule:
                               flags=flags)
 
 
+TEXTWRAP_FACTORY = None      # set by the harness that needs it (C17)
+
+
+def wrap_textwrap(mod):
+    if TEXTWRAP_FACTORY is None:
+        return mod
+    return TEXTWRAP_FACTORY(mod)
+
+
 def wrap_re(mod):
     return mod if isinstance(mod, SymReModule) else SymReModule(mod)
 
